@@ -271,9 +271,10 @@ def random_entry(rng, opens, playable_only=True):
     return [opens[0]]
 
 
-def make_bar(rng, opens, meter):
+def make_bar(rng, opens, meter, tuning=None):
     from fractions import Fraction
     b = Bar("C", meter)
+    hinted = tuning is not None and rng.random() < 0.3
     exp, lens = [], []
     total, L = Fraction(0), Fraction(meter[0], meter[1])
     for _ in range(rng.randint(1, 5)):
@@ -286,7 +287,17 @@ def make_bar(rng, opens, meter):
             lens.append((ln, None))
         else:
             ps = random_entry(rng, opens)
-            b.place_notes(NoteContainer([Note(p) for p in ps]), v)
+            if hinted:
+                # notes as the tuning hands them out: each carries the string and fret it was asked for (two of them may
+                # name the same string; the entry is playable all the same)
+                objs = []
+                for p in ps:
+                    where = [(i, p - o) for i, o in enumerate(opens) if 0 <= p - o <= 24]
+                    i, f = rng.choice(where)
+                    objs.append(tuning.get_Note(i, f))
+                b.place_notes(NoteContainer(objs), v)
+            else:
+                b.place_notes(NoteContainer([Note(p) for p in ps]), v)
             exp.append(ps)
             lens.append((ln, ps))
         total += ln
@@ -352,7 +363,7 @@ def run_tabs(ctx, shard, tun):
                 e = []
                 for _ in range(nb):
                     while True:
-                        b, x, lens = make_bar(rng, opens, meter)
+                        b, x, lens = make_bar(rng, opens, meter, t)
                         if len(b):
                             break
                     tr.add_bar(b)
@@ -396,6 +407,11 @@ def run_tabs(ctx, shard, tun):
                     w["tuning_via"] = "track.instrument.tuning"
                     st, txt = ctx.call(TAB.from_Track, tracks[0], width)
                 else:
+                    if rng.random() < 0.3:
+                        # the track has a tuning of its own, another one than the one asked for explicitly
+                        other = rng.choice([u for u in tun if u is not t] or [default])
+                        tracks[0].set_tuning(other)
+                        w["track_tuning"] = tname(other)
                     st, txt = ctx.call(TAB.from_Track, tracks[0], width, t)
             else:
                 c = Composition()
